@@ -119,7 +119,7 @@ Accept(p, q) ==
   /\ FarApart(bits, p, q)
   /\ stage' = "done" /\ key' = MakeKey(p, q) /\ UNCHANGED bits
 
-Next == \E p \in SP[bits \div 2], q \in SP[bits \div 2] : Retry(p, q) \/ Accept(p, q)
+Next == stage = "draw" /\ \E p \in SP[bits \div 2], q \in SP[bits \div 2] : Retry(p, q) \/ Accept(p, q)   \* (guard first: TLC would enumerate all pairs in every "done" state)
 Spec == Init /\ [][Next]_vars
 
 -----------------------------------------------------------------------------
@@ -147,11 +147,13 @@ OddRequestOneShort == (stage = "done" /\ bits % 2 = 1) =>
 LambdaIsHalfPhi == stage = "done" => 2 * key.lambda = key.phi
 
 (* why the length is exact: both factors have their two top bits set *)
+Pow2T == TLCEval([k \in 0..30 |-> Pow2(k)])      \* table (TLC: a comparison per pair instead of a recursion per pair)
 TopTwoBits == stage = "draw" =>
-  \A p \in SP[bits \div 2] :
-     /\ BitLen(p) = bits \div 2
-     /\ p >= 3 * Pow2((bits \div 2) - 2)
-     /\ \A q \in SP[bits \div 2] : BitLen(p * q) = 2 * (bits \div 2)
+  LET h == bits \div 2 IN
+  \A p \in SP[h] :
+     /\ BitLen(p) = h
+     /\ p >= 3 * Pow2(h - 2)
+     /\ \A q \in SP[h] : p * q >= Pow2T[2 * h - 1] /\ p * q < Pow2T[2 * h]      \* i.e. BitLen(p * q) = 2 * h
 
 (* the candidate construction delivers the shape SP assumes *)
 ASSUME CandidateShape
